@@ -31,7 +31,8 @@ RULE = ("random histories of up to 30 ops on the real RollingFileAppender: trigg
         "archive step, which is C08's subject: gzip roller with count 1 whose archive slot is a symlink to /dev/full "
         "while the first records arrive - rotations attempted meanwhile must make append return Err and keep the "
         "active file (model: append with a failing roller), after healing nothing acknowledged may be missing. "
-        "One lifetime of 520 appends under an on-start-up trigger. non-trivial = at least 2 records "
+        "Files rolled at exactly 2^15, 2^16, 2^16+-1 and 2^17 bytes (thorough: 2^12..2^18), plain and .gz, archives beside "
+        "the log and on another file system. One lifetime of 520 appends under an on-start-up trigger. non-trivial = at least 2 records "
         "and a trigger able to fire; distinct = distinct case line")
 ASSUMPTIONS = [a for a in rc.COMMON_ASSUMPTIONS if not a.startswith("synchronous rotation")] + [
     "background_rotation: proved for the interleaving machine of coq/Model/RollingBg.v (the appender's file-system "
@@ -246,6 +247,17 @@ def cases(rng, tier):
                 ops.append(rc.op_append(rng, "%d" % rid, sz))
                 rid += 1
         out.append([trig, roller, pre, a0, ops])
+    # files rolled at EXACTLY a power-of-two size (and one byte around it), plain and gzip, archives next to the
+    # log and on another file system: block-wise copying / compressing must not lose the last block
+    sizes = [65536, 65535, 65537, 131072, 32768] if tier == "quick" else [4096, 8192, 8193, 16384, 32768, 65535, 65536, 65537, 131072, 262144]
+    for j, sz in enumerate(sizes):
+        for gz in (1, 0):
+            for shape in ((0, 3) if tier != "quick" or j < 2 else (3 if j % 2 else 0,)):
+                head = rng.range(3, 9)
+                ops = [rc.op_append(rng, "h", head), [0, [rc.rec_bytes(rng, "big", sz - head)]],
+                       rc.op_append(rng, "t1", 5), rc.op_append(rng, "t2", 7)]
+                # post-processing user trigger: fires once the file holds sz bytes, i.e. after the 2nd append
+                out.append([[2, 0, [rc.NEVER, sz, rc.NEVER, rc.NEVER]], [1, 0, 2, gz, shape, 0], [0], 1, ops])
     for _ in range(150 if tier == "quick" else 2500):
         out.append(hot_case(rng))
     for _ in range(250 if tier == "quick" else 3000):
